@@ -6,6 +6,9 @@ convergence), C12 (confined to the peer's span, bounds are real keys).
 import MstVerif.Proofs.Pages
 import MstVerif.Proofs.DiffWalk
 
+set_option linter.unusedSectionVars false
+set_option linter.unusedVariables false
+
 namespace Mst
 variable {K V D : Type} [LinearOrder K] [DecidableEq D]
 
@@ -22,15 +25,102 @@ def pageRanges (hc : HashCfg K V D) (t : Tree K V D) : List (PR K D) :=
   | [] => []
   | _ :: _ => t.root.preorder.filterMap (rangeOf hc)
 
+
+/-! ### Helpers -/
+
+theorem pageRanges_of_nil (hc : HashCfg K V D) (t : Tree K V D) (h : t.root.content = []) :
+    pageRanges hc t = [] := by
+  unfold pageRanges; rw [h]
+
+theorem pageRanges_of_ne_nil (hc : HashCfg K V D) (t : Tree K V D) (h : t.root.content ≠ []) :
+    pageRanges hc t = t.root.preorder.filterMap (rangeOf hc) := by
+  unfold pageRanges
+  cases hcnt : t.root.content with
+  | nil => exact absurd hcnt h
+  | cons x xs => rfl
+
+/-- Shape of the root of a hashed tree: a `some` page with an up-to-date cached digest, clean,
+either empty or stratified. -/
+theorem Hashed.root_shape {lvl : K → Nat} {hc : HashCfg K V D} {t : Tree K V D}
+    (h : Hashed lvl hc t) :
+    ∃ L d n hp, t.root = .some L (some d) n hp ∧ t.rootHash = some d ∧ CleanPg hc t.root ∧
+      (t.root.content = [] ∨ (t.root.content ≠ [] ∧ LvPg lvl (L + 1) t.root)) := by
+  obtain ⟨⟨shape, -, cacheOK, hroot⟩, hh⟩ := h
+  obtain ⟨root, rh⟩ := t
+  simp only at shape cacheOK hroot hh ⊢
+  cases rh with
+  | none => simp at hh
+  | some d =>
+    have hcache := hroot d rfl
+    cases root with
+    | none => simp [LvRoot] at shape
+    | some L c n hp =>
+      simp only [Pg.cache?] at hcache
+      subst hcache
+      simp only [LvRoot] at shape
+      simp only [CacheOKPg] at cacheOK
+      refine ⟨L, d, n, hp, rfl, rfl, cacheOK.1 rfl, ?_⟩
+      by_cases hn : n = .nil
+      · left
+        obtain ⟨-, hh'⟩ := shape.1 hn
+        subst hn; subst hh'
+        simp [Pg.content, Nd.content]
+      · right
+        have hlv : LvPg lvl (L + 1) (.some L (some d) n hp) := by
+          simp only [LvPg]
+          exact ⟨Nat.lt_succ_self L, hn, shape.2.1, shape.2.2⟩
+        exact ⟨LvPg_some_content_ne_nil lvl (L + 1) L (some d) n hp hlv, hlv⟩
+
+theorem mem_pageRanges (hc : HashCfg K V D) (t : Tree K V D) (r : PR K D)
+    (hr : r ∈ pageRanges hc t) :
+    t.root.content ≠ [] ∧ ∃ q ∈ t.root.preorder, rangeOf hc q = some r := by
+  by_cases hcnt : t.root.content = []
+  · rw [pageRanges_of_nil hc t hcnt] at hr
+    simp at hr
+  · rw [pageRanges_of_ne_nil hc t hcnt] at hr
+    exact ⟨hcnt, List.mem_filterMap.1 hr⟩
+
+/-- Every page range of a hashed tree is delimited by two entries of the tree, in order. -/
+theorem pageRanges_mem_bounds (lvl : K → Nat) (hc : HashCfg K V D) (t : Tree K V D)
+    (h : Hashed lvl hc t) (r : PR K D) (hr : r ∈ pageRanges hc t) :
+    ∃ a z : K × V, a ∈ t.root.content ∧ z ∈ t.root.content ∧ r.start = a.1 ∧ r.end_ = z.1 ∧
+      a.1 ≤ z.1 := by
+  obtain ⟨-, q, hq, hrq⟩ := mem_pageRanges hc t r hr
+  obtain ⟨a, z, haq, hzq, e1, e2⟩ := rangeOf_eq_some hc q r hrq
+  obtain ⟨pre, suf, e⟩ := preorder_infix t.root q hq
+  have hpw : PW (pre ++ q.content ++ suf) := e ▸ h.inv.sorted.pw
+  have hsub := preorder_content_subset t.root q hq
+  exact ⟨a, z, hsub _ (mem_of_head? haq), hsub _ (mem_of_getLast? hzq), e1, e2,
+    hpw.left.right.head_le haq (mem_of_getLast? hzq)⟩
+
+theorem filterMap_of_map_some {α β : Type} (f : α → Option β) (m : List α) (l : List β)
+    (h : l.map some = m.map f) : m.filterMap f = l := by
+  have : m.filterMap f = (m.map f).filterMap id := by
+    rw [List.filterMap_map]; rfl
+  rw [this, ← h, List.filterMap_map]
+  simp
+
+/-- `Builder.intoDiffVec` of a single inconsistent mark and no consistent mark. -/
+theorem intoDiffVec_single (s e : K) (h : s ≤ e) :
+    Builder.intoDiffVec ({ bad := [(s, e)], good := [] } : Builder K) = .ok [(s, e)] := by
+  simp [Builder.intoDiffVec, intoVec, mergeOverlapping, mergeGo, checkWindowsIntoVec,
+    reduceSyncRange, checkWindowsReduce]
+
 /-- `serialise_page_ranges()` of a hashed tree returns exactly `pageRanges`. -/
 theorem serialise_eq_pageRanges (lvl : K → Nat) (hc : HashCfg K V D) (t : Tree K V D)
     (h : Hashed lvl hc t) : t.serialise = .ok (some (pageRanges hc t)) := by
-  sorry
+  obtain ⟨l, hl, h1, h2⟩ := serialise_spec lvl hc t h.inv h.hashed
+  rw [hl]
+  by_cases hcnt : t.root.content = []
+  · rw [pageRanges_of_nil hc t hcnt, h1 hcnt]
+  · rw [pageRanges_of_ne_nil hc t hcnt, filterMap_of_map_some _ _ _ (h2 hcnt)]
 
 /-- Page ranges of a real tree are well-formed (`start ≤ end`). -/
 theorem pageRanges_valid (lvl : K → Nat) (hc : HashCfg K V D) (t : Tree K V D)
     (h : Hashed lvl hc t) : PRValid (pageRanges hc t) := by
-  sorry
+  intro r hr
+  obtain ⟨a, z, -, -, e1, e2, hle⟩ := pageRanges_mem_bounds lvl hc t h r hr
+  rw [e1, e2]; exact hle
 
 /-- Non-empty tree: the first range spans the whole tree (smallest key, largest key) and carries
 the root hash; every range's bounds are keys the tree holds. -/
@@ -38,29 +128,76 @@ theorem pageRanges_head (lvl : K → Nat) (hc : HashCfg K V D) (t : Tree K V D)
     (h : Hashed lvl hc t) (a z : K × V) (ha : t.root.content.head? = some a)
     (hz : t.root.content.getLast? = some z) :
     ∃ d rest, t.rootHash = some d ∧ pageRanges hc t = { start := a.1, end_ := z.1, hash := d } :: rest := by
-  sorry
+  obtain ⟨L, d, n, hp, hroot, hrh, hclean, -⟩ := h.root_shape
+  have hne : t.root.content ≠ [] := by
+    intro he; rw [he] at ha; simp at ha
+  have hcache := clean_cache hc t.root hclean
+  rw [pageRanges_of_ne_nil hc t hne]
+  have hr : rangeOf hc t.root = some { start := a.1, end_ := z.1, hash := d } := by
+    rw [hroot] at hcache ha hz ⊢
+    simp only [Pg.cache?, Pg.trueHash] at hcache
+    simp only [rangeOf, ha, hz, Pg.trueHash, ← hcache]
+  refine ⟨d, (n.preorder ++ hp.preorder).filterMap (rangeOf hc), hrh, ?_⟩
+  rw [hroot] at hr ⊢
+  rw [Pg.preorder, List.filterMap_cons, hr]
 
 theorem pageRanges_bounds_are_keys (lvl : K → Nat) (hc : HashCfg K V D) (t : Tree K V D)
     (h : Hashed lvl hc t) : ∀ r ∈ pageRanges hc t, r.start ∈ t.root.keys ∧ r.end_ ∈ t.root.keys := by
-  sorry
+  intro r hr
+  obtain ⟨a, z, ha, hz, e1, e2, -⟩ := pageRanges_mem_bounds lvl hc t h r hr
+  rw [e1, e2]
+  exact ⟨List.mem_map.2 ⟨a, ha, rfl⟩, List.mem_map.2 ⟨z, hz, rfl⟩⟩
 
 /-- Two hashed trees with the same content are the same tree (C01 for states). -/
 theorem hashed_eq_of_content_eq (lvl : K → Nat) (hc : HashCfg K V D) (t₁ t₂ : Tree K V D)
     (h₁ : Hashed lvl hc t₁) (h₂ : Hashed lvl hc t₂) (h : t₁.root.content = t₂.root.content) :
     t₁.root = t₂.root ∧ pageRanges hc t₁ = pageRanges hc t₂ := by
-  sorry
+  obtain ⟨-, -, -, -, -, -, hc1, -⟩ := h₁.root_shape
+  obtain ⟨-, -, -, -, -, -, hc2, -⟩ := h₂.root_shape
+  have he := root_unique lvl t₁.root t₂.root h₁.inv.shape h₂.inv.shape h
+  have hroot := clean_eq_of_erase_eq hc t₁.root t₂.root hc1 hc2 he
+  refine ⟨hroot, ?_⟩
+  unfold pageRanges
+  rw [hroot]
 
 /-- A diff of two real trees never panics. -/
 theorem diff_trees_ok (lvl : K → Nat) (hc : HashCfg K V D) (tL tP : Tree K V D)
     (hL : Hashed lvl hc tL) (hP : Hashed lvl hc tP) :
     ∃ out, diff (pageRanges hc tL) (pageRanges hc tP) = .ok out ∧ DRChain out ∧ DRValid out := by
-  sorry
+  obtain ⟨out, h1, h2, h3, -⟩ := diff_total (pageRanges hc tL) (pageRanges hc tP)
+    (pageRanges_valid lvl hc tL hL) (pageRanges_valid lvl hc tP hP)
+  exact ⟨out, h1, h2, h3⟩
 
 /-- C08: identical content ⇒ empty diff. -/
 theorem diff_trees_same_content (lvl : K → Nat) (hc : HashCfg K V D) (tL tP : Tree K V D)
     (hL : Hashed lvl hc tL) (hP : Hashed lvl hc tP) (h : tL.root.content = tP.root.content) :
     diff (pageRanges hc tL) (pageRanges hc tP) = .ok [] := by
-  sorry
+  obtain ⟨-, hpr⟩ := hashed_eq_of_content_eq lvl hc tL tP hL hP h
+  rw [hpr]
+  obtain ⟨L, d, n, hp, hroot, hrh, hclean, hcase⟩ := hP.root_shape
+  rcases hcase with hnil | ⟨hne, hlv⟩
+  · rw [pageRanges_of_nil hc tP hnil]; rfl
+  · have hsorted := hP.inv.sorted
+    have hvalid := pageRanges_valid lvl hc tP hP
+    rw [pageRanges_of_ne_nil hc tP hne] at hvalid ⊢
+    rw [hroot] at hlv hsorted hvalid ⊢
+    obtain ⟨a, z, d', -, -, -, hr⟩ := rangeOf_some lvl hc (L + 1) _ hlv rfl
+    rw [Pg.preorder, List.filterMap_cons, hr] at hvalid ⊢
+    have hdesc : ∀ v ∈ (n.preorder ++ hp.preorder).filterMap (rangeOf hc),
+        ∃ q ∈ n.preorder ++ hp.preorder, rangeOf hc q = some v :=
+      fun v hv => List.mem_filterMap.1 hv
+    refine diff_same _ _ (hvalid _ (by simp)) ?_ ?_
+    · intro v hv
+      obtain ⟨q, hq, hrq⟩ := hdesc v hv
+      have hq' : q ∈ (Pg.some L (some d) n hp).preorder := by
+        rw [Pg.preorder]; exact List.mem_cons_of_mem _ hq
+      exact (supersetOf_iff _ _).2 (preorder_nested lvl hc (L + 1) _ q hlv hsorted hq' _ v hr hrq)
+    · intro v hv
+      obtain ⟨q, hq, hrq⟩ := hdesc v (mem_of_head? hv)
+      have := descendant_not_superset lvl hc (L + 1) L (some d) n hp hlv hsorted q hq _ v hr hrq
+      cases hs : v.supersetOf _ with
+      | false => rfl
+      | true => exact absurd ((supersetOf_iff _ _).1 hs) this
 
 /-- The peer's smallest and largest keys enclose all local keys (vacuous for an empty local tree). -/
 def SpanCovers (tL tP : Tree K V D) : Prop :=
@@ -71,7 +208,13 @@ theorem diff_trees_local_empty (lvl : K → Nat) (hc : HashCfg K V D) (tL tP : T
     (hL : Hashed lvl hc tL) (hP : Hashed lvl hc tP) (he : tL.root.content = [])
     (a z : K × V) (ha : tP.root.content.head? = some a) (hz : tP.root.content.getLast? = some z) :
     diff (pageRanges hc tL) (pageRanges hc tP) = .ok [(a.1, z.1)] := by
-  sorry
+  obtain ⟨d, rest, -, hpr⟩ := pageRanges_head lvl hc tP hP a z ha hz
+  have hvalid := pageRanges_valid lvl hc tP hP
+  rw [hpr] at hvalid
+  rw [pageRanges_of_nil hc tL he, hpr]
+  have hle : a.1 ≤ z.1 := hvalid _ (List.mem_cons_self ..)
+  rw [diff_eq_walk _ _ (by simp), diffWalk_local_empty _ _ hle]
+  exact intoDiffVec_single _ _ hle
 
 /-- Partially overlapping or disjoint spans: when the peer's smallest key lies strictly below the
 local tree's smallest key and the peer's largest key strictly below the local largest key, the
@@ -83,7 +226,30 @@ theorem diff_trees_peer_starts_first (lvl : K → Nat) (hc : HashCfg K V D) (tL 
     (ha' : tL.root.content.head? = some a') (hz' : tL.root.content.getLast? = some z')
     (h1 : a.1 < a'.1) (h2 : z.1 < z'.1) :
     diff (pageRanges hc tL) (pageRanges hc tP) = .ok [(a.1, min a'.1 z.1)] := by
-  sorry
+  obtain ⟨d, rest, -, hpr⟩ := pageRanges_head lvl hc tP hP a z ha hz
+  obtain ⟨d', rest', -, hpr'⟩ := pageRanges_head lvl hc tL hL a' z' ha' hz'
+  have hvalid := pageRanges_valid lvl hc tP hP
+  rw [hpr] at hvalid
+  have hle : a.1 ≤ z.1 := hvalid _ (List.mem_cons_self ..)
+  rw [hpr, hpr', diff_eq_walk _ _ (by simp)]
+  rw [diffWalk_head_incomparable]
+  · dsimp only
+    have hg : a.1 ≤ (if z.1 < a'.1 then z.1 else a'.1) := by
+      split
+      · exact hle
+      · exact le_of_lt h1
+    rw [if_pos hg]
+    have hmin : (if z.1 < a'.1 then z.1 else a'.1) = min a'.1 z.1 := by
+      rw [min_def]
+      by_cases hlt : z.1 < a'.1
+      · rw [if_pos hlt, if_neg (not_le_of_gt hlt)]
+      · rw [if_neg hlt, if_pos (not_lt.1 hlt)]
+    rw [hmin] at hg ⊢
+    exact intoDiffVec_single _ _ hg
+  · simp only [PR.supersetOf, Bool.and_eq_false_iff, decide_eq_false_iff_not]
+    exact Or.inr (not_le_of_gt h2)
+  · simp only [PR.supersetOf, Bool.and_eq_false_iff, decide_eq_false_iff_not]
+    exact Or.inl (not_le_of_gt h1)
 
 /-- C12 (tree part): every returned range lies within the peer's smallest and largest key, starts
 at a key the peer holds and ends at a key held by the peer or the local tree. -/
@@ -93,6 +259,72 @@ theorem diff_trees_confined (lvl : K → Nat) (hc : HashCfg K V D) (tL tP : Tree
     ∀ r ∈ out, r.1 ∈ tP.root.keys ∧ (r.2 ∈ tP.root.keys ∨ r.2 ∈ tL.root.keys) ∧
       (∀ a z : K × V, tP.root.content.head? = some a → tP.root.content.getLast? = some z →
         a.1 ≤ r.1 ∧ r.2 ≤ z.1) := by
-  sorry
+  have hvL := pageRanges_valid lvl hc tL hL
+  have hvP := pageRanges_valid lvl hc tP hP
+  have hkL := pageRanges_bounds_are_keys lvl hc tL hL
+  have hkP := pageRanges_bounds_are_keys lvl hc tP hP
+  cases hpeer : pageRanges hc tP with
+  | nil =>
+    rw [hpeer] at h
+    have : out = [] := by
+      have := h.symm.trans (diff_empty_peer (pageRanges hc tL))
+      exact Except.ok.inj this
+    subst this
+    intro r hr; simp at hr
+  | cons root rest =>
+    rw [hpeer] at h hvP hkP
+    obtain ⟨b, hw, hbv, hgv⟩ := diffWalk_total (pageRanges hc tL) (root :: rest) hvL hvP
+    obtain ⟨out', ho, -, hov, hcov, -, hbnd⟩ := intoDiffVec_spec b hbv hgv
+    rw [diff_eq_walk _ _ (by simp), hw] at h
+    dsimp only at h
+    have : out' = out := Except.ok.inj (ho.symm.trans h)
+    subst this
+    have hbad := diffWalk_bad_bounds _ _ b hw
+    have hgood := diffWalk_good_justified _ _ b hw
+    have hwithin := diffWalk_bad_within _ root rest hvP b hw
+    intro r hr
+    obtain ⟨hb1, hb2⟩ := hbnd r hr
+    refine ⟨?_, ?_, ?_⟩
+    · rcases hb1 with ⟨s, hs, e⟩ | ⟨g, hg, e⟩
+      · obtain ⟨⟨p, hp, hp'⟩, -⟩ := hbad s hs
+        rw [e]
+        rcases hp' with hp' | hp' <;> rw [hp']
+        · exact (hkP p hp).1
+        · exact (hkP p hp).2
+      · obtain ⟨p, hp, l, -, hgp, -⟩ := hgood g hg
+        rw [e, hgp]
+        exact (hkP p hp).2
+    · rcases hb2 with ⟨s, hs, e⟩ | ⟨g, hg, e⟩
+      · obtain ⟨-, hs2⟩ := hbad s hs
+        rw [e]
+        rcases hs2 with ⟨p, hp, hp'⟩ | ⟨l, hl, hl'⟩
+        · left; rw [hp']; exact (hkP p hp).2
+        · right; rw [hl']; exact (hkL l hl).1
+      · obtain ⟨p, hp, l, -, hgp, -⟩ := hgood g hg
+        left
+        rw [e, hgp]
+        exact (hkP p hp).1
+    · intro a z ha hz
+      obtain ⟨d, rest', -, hpr⟩ := pageRanges_head lvl hc tP hP a z ha hz
+      rw [hpeer] at hpr
+      obtain ⟨hroot, -⟩ := List.cons.inj hpr
+      have hrv : r.1 ≤ r.2 := hov r hr
+      obtain ⟨s1, hs1, hm1⟩ := hcov r.1 ⟨r, hr, le_refl _, hrv⟩
+      obtain ⟨s2, hs2, hm2⟩ := hcov r.2 ⟨r, hr, hrv, le_refl _⟩
+      have w1 := hwithin s1 hs1
+      have w2 := hwithin s2 hs2
+      rw [hroot] at w1 w2
+      exact ⟨le_trans w1.1 hm1.1, le_trans hm2.2 w2.2⟩
 
 end Mst
+
+#print axioms Mst.serialise_eq_pageRanges
+#print axioms Mst.pageRanges_valid
+#print axioms Mst.pageRanges_head
+#print axioms Mst.pageRanges_bounds_are_keys
+#print axioms Mst.hashed_eq_of_content_eq
+#print axioms Mst.diff_trees_ok
+#print axioms Mst.diff_trees_same_content
+#print axioms Mst.diff_trees_local_empty
+#print axioms Mst.diff_trees_peer_starts_first
+#print axioms Mst.diff_trees_confined
